@@ -2,3 +2,4 @@ import WrglModel.Props.C15
 #print axioms Wrgl.C15_fact_literalPrefix
 #print axioms Wrgl.C15_refines
 #print axioms Wrgl.C15_like_is_not_prefix
+#print axioms Wrgl.C15_fact_remotePrefixBoundary
